@@ -50,6 +50,7 @@ class Model(object):
         self.classes = {}       # class name -> ClassInfo
         self.consts = {}        # (module, name) -> ast node of module-level assignment value
         self.functions = {}     # (module, name) -> FunctionDef (module level)
+        self._mro = {}
         self.imports = {}       # module -> {local name: ('mod', dotted) | ('from', module, name)}
         files = sorted(glob.glob(os.path.join(self.pkg, '*.py')))
         if not files:
@@ -86,6 +87,12 @@ class Model(object):
 
     # ---- lookups
     def mro(self, cls):
+        r = self._mro.get(cls)
+        if r is None:
+            r = self._mro[cls] = self._mro_compute(cls)
+        return r
+
+    def _mro_compute(self, cls):
         out = []
         work = [cls]
         while work:
